@@ -170,6 +170,11 @@ func (b *backend) List(ctx context.Context, r *proto.RangeRequest) (resp *proto.
 		kvs = kvs[0:r.Limit]
 	}
 	resp.Kvs = kvs
+	for _, kv := range kvs {
+		// a list at an explicit revision may see writes that are stored but not yet committed,
+		// the header revision must not be smaller than the revision of any returned kv (as in Get)
+		resp.Header.Revision = maxUint64(resp.Header.Revision, kv.Revision)
+	}
 	return resp, nil
 }
 
